@@ -225,7 +225,7 @@ func loadFindings() []Finding {
 
 // keys of a finding's match that describe the crash site (as opposed to the
 // way the failure showed)
-var siteKeys = map[string]bool{"site": true, "pos": true, "cut": true, "torn": true, "last_rec": true, "next_rec": true, "trigger": true, "subset": true, "hdr_changed": true}
+var siteKeys = map[string]bool{"site": true, "pos": true, "cut": true, "torn": true, "last_rec": true, "next_rec": true, "trigger": true, "subset": true, "alloc": true}
 
 func matchVal(want interface{}, got string) bool {
 	switch t := want.(type) {
@@ -509,7 +509,7 @@ func coordinate(prop, tier string) int {
 		return 2
 	}
 	// instrumentation census across the batch
-	if c := census(prop, sum); c != "" {
+	if c := census(prop, sum); c != "" && len(bySig) == 0 {
 		fmt.Printf("HARNESS-TROUBLE: instrumentation census failed: %s\n", c)
 		return 2
 	}
@@ -757,7 +757,14 @@ func minimiseAndWrite(pl *pool, prop string, job Job, plan *core.Plan, v *core.V
 		if first := run(best); first == nil {
 			return "", false, "the plan that failed in the batch does not fail when run alone"
 		}
-		best = core.Minimise(best, v, func(p *core.Plan) bool { return run(p) != nil }, 250)
+		budget := 200
+		if v.Features["how"] == "fatal" {
+			budget = 40
+		}
+		if os.Getenv("SIM_NO_MINIMISE") != "" {
+			budget = 1
+		}
+		best = core.Minimise(best, v, func(p *core.Plan) bool { return run(p) != nil }, budget)
 	}
 	res, h := runPlanJob(pl, Job{ID: 0, Prop: prop, Tier: job.Tier, Seed: job.Seed, Plan: best, Mode: mode})
 	if h != "" {
